@@ -112,6 +112,17 @@ impl Sim {
     }
 }
 
+fn kind_of(m: &Message) -> &'static str {
+    match m {
+        Message::RequestVote(_) => "RV",
+        Message::RequestVoteResponse(_) => "RVR",
+        Message::PreVote(_) => "PV",
+        Message::PreVoteResponse(_) => "PVR",
+        Message::AppendEntries(_) => "AE",
+        Message::AppendEntriesResponse(_) => "AER",
+        _ => "?",
+    }
+}
 fn entries_coq(es: &[tensor_chain::network::LogEntry]) -> String {
     list(es.iter().map(|e| format!("E {} {} {}", e.term, e.index, e.block.header.height)))
 }
@@ -138,6 +149,11 @@ enum Op {
     Heartbeat(u64),
     Propose(u64),
     Deliver(u64),
+    /// scripted schedules: deliver the most recent pool message of that kind from src to dst
+    /// (resolved to a pool index when executed; skipped when there is none)
+    DeliverLast(u64, u64, &'static str),
+    /// the second most recent such message (an older, delayed one)
+    DeliverPrev(u64, u64, &'static str),
     Restart(u64),
 }
 
@@ -156,7 +172,22 @@ struct Run {
 impl Run {
     fn exec(&mut self, op: &Op, dist: &mut Dist) {
         let n = self.sim.n;
+        let resolved;
+        let op = match op {
+            Op::DeliverLast(src, dst, kind) | Op::DeliverPrev(src, dst, kind) => {
+                let mut ixs: Vec<usize> = self.sim.pool.iter().enumerate()
+                    .filter(|(_, (s0, d0, m))| s0 == src && d0 == dst && kind_of(m) == *kind).map(|(ix, _)| ix).collect();
+                ixs.reverse();
+                let pick = if matches!(op, Op::DeliverPrev(..)) { ixs.get(1) } else { ixs.first() };
+                match pick {
+                    Some(ix) => { resolved = Op::Deliver(*ix as u64); &resolved }
+                    None => return,
+                }
+            }
+            _ => op,
+        };
         let (opc, h, touched): (String, String, u64) = match op {
+            Op::DeliverLast(..) | Op::DeliverPrev(..) => unreachable!(),
             Op::Deliver(pick) => {
                 let (src, dst, m) = self.sim.pool[*pick as usize].clone();
                 let resp = self.sim.nodes[dst as usize].handle_message(&name(src), &m);
@@ -347,21 +378,74 @@ fn main() {
     let mut rng = Rng::new(args.seed);
     let mut dist = Dist::default();
     let mut w = CaseWriter::new(&args.out, "sched");
-    // corpus: the schedule that breaks leader completeness when a follower acknowledges its whole
-    // local log (F-C01-ack): old leader 0 keeps an unreplicated entry 3 of term 1; node 2 wins term 2,
-    // its heartbeat is acknowledged by 0 with match_index 3; after proposing its own entry 3 a duplicate
-    // of that acknowledgement commits index 3 on 2 alone; then 0 wins term 3 with its old entry 3.
+    // corpus: scripted schedules for the classical ways Raft safety breaks (each found or motivated by a
+    // real defect or a seeded change); message steps are symbolic (latest message of a kind from a to b)
     {
         use Op::*;
-        let script = vec![
-            Elect(0), Deliver(0), Deliver(2), Heartbeat(0), Deliver(3), Deliver(5),
-            Propose(0), Propose(0), Heartbeat(0), Deliver(6), Deliver(7), Propose(0),
-            Elect(2), Deliver(11), Deliver(12), Heartbeat(2), Deliver(13), Deliver(15),
-            Propose(2), Deliver(15), Elect(0), Deliver(16), Deliver(18),
-        ];
-        let k = Knobs { n: 3, pre_vote: false, fast_path: false, geometric: false, adaptive: false };
-        let dir = args.out.join("wal").join("corpus0");
-        let (t, h, nt) = run_script(&script, &k, &mut rng, dir.clone(), &mut dist, "corpus F-C01-ack: ");
+        let dl = |a: u64, b: u64, k: &'static str| DeliverLast(a, b, k);
+        // elect `c` with the vote of `v` (pre-vote off), then make it write-safe by one acknowledged heartbeat to `v`
+        let elect = |c: u64, v: u64| vec![Elect(c), dl(c, v, "RV"), dl(v, c, "RVR")];
+        let warm = |l: u64, f: u64| vec![Heartbeat(l), dl(l, f, "AE"), dl(f, l, "AER")];
+        let mut scripts: Vec<(&str, Vec<Op>)> = vec![];
+        // (1) F-C01-ack: a follower acknowledges its whole local log (fixed in 30e11964)
+        let mut s1 = elect(0, 1);
+        s1.extend(warm(0, 1));
+        s1.extend(vec![Propose(0), Propose(0), Heartbeat(0), dl(0, 1, "AE"), dl(0, 2, "AE"), Propose(0)]);
+        s1.extend(elect(2, 1));
+        s1.extend(vec![Heartbeat(2), dl(2, 0, "AE"), dl(0, 2, "AER"), Propose(2), dl(0, 2, "AER")]);
+        s1.extend(elect(0, 1));
+        scripts.push(("corpus F-C01-ack: ", s1));
+        // (2) Figure 8: an old-term entry must not be committed by counting replicas
+        let mut s2 = elect(0, 1);
+        s2.extend(warm(0, 1));
+        s2.push(dl(0, 2, "AE")); // node 2 learns term 1
+        s2.push(Propose(0)); // A1 (term 1) on node 0 only
+        s2.extend(elect(2, 1)); // term 2, node 1's log is still empty
+        s2.extend(warm(2, 1));
+        s2.push(Propose(2)); // C1 (term 2) on node 2 only
+        s2.push(dl(2, 0, "RV")); // node 0 learns term 2 (refuses: its log is more up to date)
+        s2.extend(elect(0, 1)); // term 3
+        s2.extend(vec![Heartbeat(0), dl(0, 1, "AE"), dl(1, 0, "AER")]); // prev mismatch -> next_index back to 1
+        s2.extend(vec![Heartbeat(0), dl(0, 1, "AE"), dl(1, 0, "AER")]); // ships A1, ack match 1
+        s2.push(Propose(0)); // A2 (term 3), local only
+        s2.push(dl(1, 0, "AER")); // the same acknowledgement again, now with an own-term entry on top
+        s2.push(dl(0, 2, "RV")); // node 2 learns term 3
+        s2.extend(elect(2, 1)); // term 4: node 2's last term 2 beats node 1's term 1
+        s2.extend(vec![Heartbeat(2), dl(2, 1, "AE"), dl(1, 2, "AER"), Heartbeat(2), dl(2, 1, "AE"), dl(1, 2, "AER")]);
+        s2.extend(vec![Propose(2), Heartbeat(2), dl(2, 1, "AE"), dl(1, 2, "AER")]);
+        scripts.push(("corpus figure-8: ", s2));
+        // (3) a delayed, shorter AppendEntries arrives after a longer one was acknowledged and committed
+        let mut s3 = elect(0, 1);
+        s3.extend(warm(0, 1));
+        s3.push(dl(0, 2, "AE")); // node 2 learns term 1, log stays empty
+        s3.extend(vec![Propose(0), Heartbeat(0)]); // AE [1] to 1 and 2 (kept in the pool, not delivered yet)
+        s3.extend(vec![Propose(0), Heartbeat(0), dl(0, 1, "AE"), dl(1, 0, "AER")]); // AE [1,2] delivered, acked, committed
+        s3.push(DeliverPrev(0, 2, "AE")); // node 2 receives only the older AE [1]
+        s3.push(DeliverPrev(0, 1, "AE")); // and the older AE [1] reaches node 1 late
+        s3.extend(elect(2, 1)); // lagging node 2 asks node 1
+        s3.extend(warm(2, 1));
+        s3.extend(vec![Propose(2), Heartbeat(2), dl(2, 1, "AE"), dl(1, 2, "AER")]);
+        scripts.push(("corpus delayed-shorter-append: ", s3));
+        // (4) a vote granted by the RequestVote that also raised the voter's term must survive a restart
+        let s4 = vec![Elect(0), dl(0, 1, "RV"), Restart(1), Elect(2), dl(2, 1, "RV"), dl(1, 0, "RVR"), dl(1, 2, "RVR")];
+        scripts.push(("corpus vote-survives-restart: ", s4));
+        // (5) a leader that restarts in its own term must still remember that it voted for itself
+        let mut s5 = elect(0, 1);
+        s5.extend(vec![Restart(0), Elect(2), dl(2, 0, "RV"), dl(0, 2, "RVR")]);
+        scripts.push(("corpus self-vote-survives-restart: ", s5));
+        // (6) the same two with pre-vote messages interleaved and a 5-node cluster: votes of a minority
+        let s6 = vec![Elect(0), dl(0, 1, "RV"), dl(1, 0, "RVR"), Elect(2), dl(2, 3, "RV"), dl(3, 2, "RVR"), dl(0, 4, "RV"), dl(2, 4, "RV"),
+                      dl(4, 0, "RVR"), dl(4, 2, "RVR")];
+        for (ci, (tag, script)) in scripts.iter().enumerate() {
+            let k = Knobs { n: 3, pre_vote: false, fast_path: false, geometric: false, adaptive: false };
+            let dir = args.out.join("wal").join(format!("corpus{ci}"));
+            let (t, h, nt) = run_script(script, &k, &mut rng, dir.clone(), &mut dist, tag);
+            let _ = std::fs::remove_dir_all(&dir);
+            w.push(&t, &h, nt);
+        }
+        let k5 = Knobs { n: 5, pre_vote: false, fast_path: false, geometric: false, adaptive: true };
+        let dir = args.out.join("wal").join("corpus5");
+        let (t, h, nt) = run_script(&s6, &k5, &mut rng, dir.clone(), &mut dist, "corpus split-vote-5: ");
         let _ = std::fs::remove_dir_all(&dir);
         w.push(&t, &h, nt);
     }
